@@ -66,7 +66,7 @@ def viol(ctx, clause, what, case):
 def make_params(rng):
     probs = rng.choice([(0.3, 0.1, 0.6), (0.0, 0.0, 1.0), (1.0, 0.0, 0.0), (0.0, 1.0, 0.0), (0.5, 0.5, 0.0), (0.25, 0.25, 0.5), (0.0, 0.5, 0.5)])
     tps = rng.choice([1, 10, 100, 1000, 100000])
-    return {"waiting_seconds_mean": rng.choice([0.0004, 0.05, 0.5, 2.0, 10.0, 60.0]), "num_pipelines": rng.randint(1, 5),
+    return {"waiting_seconds_mean": rng.choice([0.0004, 0.05, 0.5, 2.0, 10.0, 60.0, 3, 4, 5]) if rng.random() < 0.7 else rng.choice([3, 4, 5, 6]) / rng.choice([1, 10, 100]), "num_pipelines": rng.randint(1, 5),
             "num_operators": rng.choice([1, 2, 5, 8]), "num_segs": 1, "cpu_io_ratio": rng.choice([0.0, 0.25, 0.5, 1.0]),
             "random_seed": rng.randint(0, 10 ** 6), "interactive_prob": probs[0], "query_prob": probs[1], "batch_prob": probs[2],
             "ticks_per_second": tps}
@@ -123,8 +123,19 @@ def one_run(ctx, drv, rng, tables):
     ctx.sit("generator_runs")
     ctx.sit("events", events)
     if not m.get("fits") or m["out"] != impl or m["left"] != 0:
-        first = next((t for t in range(nticks) if not m.get("fits") or m["out"][t] != impl[t]), None)
+        mo = m.get("out", [])
+        first = next((t for t in range(nticks) if t >= len(mo) or mo[t] != impl[t]), None)
         ctx.sit("model_divergence")
+        if not m.get("fits") and first is not None and first >= len(mo) and not impl[first]:
+            # the model wants an arrival event at this tick (it asks for draws the generator never made)
+            mo = mo + [["event due"]]
+            m = dict(m, out=mo + [[]] * nticks, fits=True)
+        if m.get("fits") and first is not None and (not impl[first]) != (not m["out"][first]):
+            ev = [t for t in range(first) if impl[t]]
+            return viol(ctx, "gap-rule", f"arrival events must be floor(draw) ticks apart, or waiting_ticks_mean = {wm} when the draw is not positive: after the event at tick "
+                        f"{ev[-1] if ev else None} the next one is due at tick {first if m['out'][first] else 'later'}, the generator "
+                        f"{'emits nothing there' if m['out'][first] else 'emits one at tick ' + str(first)}"
+                        + (f" and stays silent for the remaining {nticks - first} ticks" if not any(impl[first:]) else ""), {"params": params, "nticks": nticks})
         if len(ctx.unproved) < 3:
             ctx.unproved.append({"kind": "correspondence", "component": "WorkloadGenerator (draw stream replay)", "params": params,
                                  "first_diverging_tick": first, "impl": impl[first] if first is not None else None,
